@@ -100,7 +100,8 @@ def cases(draw):
         case["ttl_prefixes"] = draw(st.sampled_from(TTL_PREFIXES))
     elif draw(st.integers(0, 5)) == 0:
         # class membership comes from a separate instances file; some instances have no triple of their own in the graph file
-        case["split_instances"] = draw(st.lists(st.integers(0, 7), min_size=0, max_size=4))
+        case["split_instances"] = {"bare": draw(st.lists(st.integers(0, 7), min_size=0, max_size=3)),
+                                   "hollow": draw(st.lists(st.integers(0, 3), min_size=0, max_size=3, unique=True))}
     return case
 
 
